@@ -65,6 +65,17 @@ Definition lookup (fallback_skip_eq : bool) (t : pthread) (cc : comp_cache) (cut
   | CLines ls => best_le false cut ls None
   end.
 
+(* how ensure_compaction_checkpoints_sidecar_best_effort_v1 sees the file.  zl = false: `path.exists()` - a
+   zero-byte file is a parsable cache without lines (open finding S4c).  zl = true: the file must hold at
+   least one byte (the S4c repair) - a zero-byte file counts as absent and is rebuilt from the full sidecar.
+   Which of the two the source does is read off it on every run (Gen/Effects.v,
+   gen_zero_length_comp_sidecar_is_absent). *)
+Definition seen (zl : bool) (cc : comp_cache) : comp_cache :=
+  match cc with
+  | CLines [] => if zl then CAbsent else cc
+  | _ => cc
+  end.
+
 Definition hit (cut : N) (o : option (N * N)) : bool :=
   match o with Some a => fst a =? cut | None => false end.
 
@@ -92,6 +103,6 @@ Record case_plan := {
   cp_max_new : N;            (* after the clamp to 1..32 *)
   cp_expect : list N         (* to_seq of the planned cut points the implementation answered *)
 }.
-Definition model_obs_plan (c : case_plan) : list N :=
-  planned false (cp_thread c) (cp_cache c) (cp_stride c) (N.to_nat (N.min (cp_max_new c) 32)).
-Definition check_case_plan (c : case_plan) : bool := lN_eqb (model_obs_plan c) (cp_expect c).
+Definition model_obs_plan (zl : bool) (c : case_plan) : list N :=
+  planned false (cp_thread c) (seen zl (cp_cache c)) (cp_stride c) (N.to_nat (N.min (cp_max_new c) 32)).
+Definition check_case_plan (zl : bool) (c : case_plan) : bool := lN_eqb (model_obs_plan zl c) (cp_expect c).
